@@ -83,8 +83,26 @@ def same_lit(d, v, relax=()) -> bool:
 
 
 def check_constraints(cs, d, kind_family, loc, errs, relax=()):
-    """cs: constraint pairs; only those of the datum's family apply (JSON Schema rule)."""
+    """cs: constraint pairs; only those of the datum's family apply (JSON Schema rule).
+    The same keyword given at several levels (NewType schema, Annotated, field schema, call
+    argument) is one constraint, the tightest: one violation, reported once."""
+    merged = {}
     for k, v in cs:
+        if k not in merged:
+            merged[k] = v
+        elif k in ("min", "exc_min", "min_len", "min_items", "min_props"):
+            merged[k] = max(merged[k], v)
+        elif k in ("max", "exc_max", "max_len", "max_items", "max_props"):
+            merged[k] = min(merged[k], v)
+        elif k == "unique":
+            merged[k] = merged[k] or v
+        elif k == "mult_of":
+            from math import gcd
+
+            merged[k] = merged[k] * v // gcd(merged[k], v)
+        else:
+            raise ValueError(f"constraint {k} given twice cannot be merged")
+    for k, v in merged.items():
         if kind_family == "num" and k in NUM_C:
             if d != d:
                 from vf.engine import Assume
